@@ -1,6 +1,7 @@
 //! sgverif — correspondence harness: calls the real sloc-guard code on generated cases and
 //! writes, per case, the request line for the Lean model driver, the implementation's
 //! canonical answer, and the verdict of the property predicate on the implementation.
+mod cgrammar;
 mod counter;
 mod dump;
 mod globfact;
